@@ -643,10 +643,11 @@ func (e *icaExec) exec(in M) any {
 
 func init() {
 	Register(Engine{
-		Name:    "ica",
-		Props:   []string{"C37", "C38"},
-		New:     func() Executor { return newIcaExec() },
-		Gen:     icaGen,
-		Monitor: icaMonitor,
+		Name:       "ica",
+		MaxMonitor: 6000,
+		Props:      []string{"C37", "C38"},
+		New:        func() Executor { return newIcaExec() },
+		Gen:        icaGen,
+		Monitor:    icaMonitor,
 	})
 }
